@@ -16,3 +16,10 @@ Definition restart (m : mcfg) (st : conn -> (nat * pos)) : sys := init_sys (rest
 (* the position a source is opened with after the restart *)
 Definition reopened_at (m : mcfg) (st : conn -> (nat * pos)) (s : conn) : pos :=
   stP (Src (restart m st) s).
+
+(* The whole restart: the store also holds the pipeline's status.  pipeline.Service.Init turns a stored
+   "running" into "system-stopped", the lifecycle service's Init starts the pipelines it finds
+   system-stopped (definitions in Conn/Trace.v); a started pipeline opens every source at its stored
+   position.  None = the pipeline is not started by the restart. *)
+Definition restart_system (m : mcfg) (st : conn -> (nat * pos)) (stored_status : nat) : option sys :=
+  if resumes stored_status then Some (restart m st) else None.
